@@ -184,7 +184,7 @@ def precise_diff(
             "Comparison between naive and aware datetimes is not supported"
         )
 
-    if d1 > d2:
+    if _is_after(d1, d2):
         d1, d2 = d2, d1
         sign = -1
 
@@ -313,6 +313,37 @@ def precise_diff(
         sign * mic_diff,
         sign * total_days,
     )
+
+
+def _is_after(
+    d1: datetime.datetime | datetime.date, d2: datetime.datetime | datetime.date
+) -> bool:
+    """
+    Whether d1 comes after d2 on the time line.
+
+    Two aware datetimes sharing their tzinfo object compare by wall clock
+    time, which around a repeated hour is not the order of the two instants.
+    """
+    if (
+        isinstance(d1, datetime.datetime)
+        and isinstance(d2, datetime.datetime)
+        and d1.tzinfo is not None
+        and d1.tzinfo is d2.tzinfo
+    ):
+        offset1 = d1.utcoffset()
+        offset2 = d2.utcoffset()
+
+        if offset1 is not None and offset2 is not None and offset1 != offset2:
+            wall1 = datetime.datetime(
+                d1.year, d1.month, d1.day, d1.hour, d1.minute, d1.second, d1.microsecond
+            )
+            wall2 = datetime.datetime(
+                d2.year, d2.month, d2.day, d2.hour, d2.minute, d2.second, d2.microsecond
+            )
+
+            return wall1 - wall2 > offset1 - offset2
+
+    return d1 > d2
 
 
 def _day_number(year: int, month: int, day: int) -> int:
